@@ -55,6 +55,15 @@ func sfail(format string, args ...any) {
 	panic(specErr{fmt.Sprintf(format, args...)})
 }
 
+func (e *SpecEnv) boxed(t types.Type, data string) Val {
+	out := Val{T: t}
+	for _, c := range e.mode().comps(t) {
+		k := HeapKey{"BOX$" + sanitize(typeStr(t)) + c.suffix, "(Array Int " + c.sort + ")"}
+		out.C = append(out.C, sx("select", e.heapRead(k), data))
+	}
+	return out
+}
+
 func (e *SpecEnv) pc() *PkgContracts {
 	if e.pkg == nil {
 		return nil
@@ -886,10 +895,18 @@ func (e *SpecEnv) call(x *ECall) Val {
 		t := e.fx.eng.resolveType(e.pkg, x.Args[1].String())
 		return boolVal(eq(v.C[0], e.fx.eng.typeTag(t)))
 	case "ptr":
-		// ptr(x): data pointer of interface x as a reference of type given
+		// ptr(x): data pointer of interface x as a reference of type given; for a value type the boxed value itself
 		v := e.eval(x.Args[0])
 		t := e.fx.eng.resolveType(e.pkg, x.Args[1].String())
+		if cs := e.mode().comps(t); !(len(cs) == 1 && cs[0].kind == "ref") {
+			return e.boxed(t, v.C[1])
+		}
 		return Val{T: t, C: []string{v.C[1]}}
+	case "box":
+		// box(r, T): the value of type T stored in the interface box r (r: a ref(...) of an interface holding a T)
+		v := e.eval(x.Args[0])
+		t := e.fx.eng.resolveType(e.pkg, x.Args[1].String())
+		return e.boxed(t, v.C[len(v.C)-1])
 	case "sprintf":
 		// sprintf("format", args...): the same uninterpreted function the engine uses for fmt.Sprintf
 		fs, ok := x.Args[0].(*EStr)
